@@ -1,7 +1,7 @@
 import Asts.Proofs.L1_b_Run
 
 /-! # L1_b — C05: OrderedReady, one pod at a time, predecessors healthy, scale-in from the top -/
-namespace Asts
+namespace Asts.L1b
 open List
 
 /-- ordinals of the create and delete actions (DESIGN Appendix C.2) -/
@@ -222,4 +222,4 @@ theorem C05_holds_total (v : SetView) (cur upd : String) (pods : List Pod) (f : 
     have : replicasOf v = r := by simp [replicasOf, hr]
     exact C05_holds v cur upd pods f r hr (this ▸ h0) hmono hwf hids
 
-end Asts
+end Asts.L1b
